@@ -296,6 +296,13 @@ def unique_name_rule(model: Model, rep: Report, rid: str) -> None:
     probes = [c for lp in loops for c in ast.walk(lp.test) if isinstance(c, ast.Call) and (dotted(c.func) or "") in ("os.path.exists", "os.path.lexists")]
     for c in probes:
         r3.check((dotted(c.func) or "") == "os.path.lexists", site(un, c), un.qualname, f"{unparse(c)} : the existence probe of a candidate name does not follow symbolic links", why="a dangling symbolic link in the output directory counts as a free name; open(path, 'wb') then creates the link's target outside the output directory")
+    # what is probed is the directory entry itself: the path variable is bound to os.path.join(<directory>, <name>) and nothing
+    # that follows links (realpath / abspath of a link's target / Path.resolve) lies between the join and the probe
+    for c in probes:
+        a0 = c.args[0] if c.args else None
+        defs_ = [n.value for n in walk_no_nested(un.node) if isinstance(n, ast.Assign) and isinstance(a0, ast.Name) and any(isinstance(t, ast.Name) and t.id == a0.id for t in n.targets)]
+        direct = bool(defs_) and all(isinstance(v, ast.Call) and (dotted(v.func) or "") == "os.path.join" for v in defs_)
+        r3.check(direct, site(un, c), un.qualname, f"{unparse(c)} : `{unparse(a0) if a0 is not None else ''}` is os.path.join(directory, name) itself at every assignment", why="the probed path went through a function that follows symbolic links (" + ", ".join(sorted({unparse(v)[:50] for v in defs_ if not (isinstance(v, ast.Call) and (dotted(v.func) or '') == 'os.path.join')})) + "): for a dangling link the probe then looks at the missing target, finds the name free, and the export creates the target outside the output directory")
     # path-sensitive form: on every path into a return, the last event on the returned path variable is the false edge of the
     # existence test - no assignment to it (or to the name it is built from) lies between the test and the return
     g = build_cfg(un.node, exc_edges=False)
